@@ -144,6 +144,53 @@ theorem ragged_change_iff (a b after : List Nat) :
 /-- an empty chunk — also strictly inside a contig's run — does not close the pending group (instance of `groups_chunking`) -/
 example : groupsOfChunks [[], [(1, 0)], [], [(1, 1), (2, 2)], [], [(2, 3)], []] = [⟨1, [0, 1]⟩, ⟨2, [2, 3]⟩] := by decide
 
+/-- **C12.repeated_group_unsound** — the rule shipped before repair f720bbc: when the data returns to the contig that
+was just handed out with only an ignored contig in between (`chr1, chr1_alt, chr1`; contig 0, ignored 7), pull-all
+evaluation completed and the second group's entries were dropped; the repaired generator raises. -/
+theorem repeated_group_unsound :
+    pullAll IterSt.pullOld 8 (IterSt.init [0, 1] [0, 1] [7] [⟨0, [1]⟩, ⟨7, [2]⟩, ⟨0, [3]⟩]) = some [[1], []] ∧
+    pullAll IterSt.pull 8 (IterSt.init [0, 1] [0, 1] [7] [⟨0, [1]⟩, ⟨7, [2]⟩, ⟨0, [3]⟩]) = none ∧
+    specSync [0, 1] [7] [⟨0, [1]⟩, ⟨7, [2]⟩, ⟨0, [3]⟩] = none := by
+  decide
+
+/-- **C12.compatible_iff_sublist** — the specification's "the contigs of the data come in an order compatible with the
+genome" is pinned by a standard notion: the data's contig names form a `List.Sublist` of the genome order. -/
+theorem compatible_iff_sublist (l ord : List Name) : compatible l ord = true ↔ l.Sublist ord := by
+  induction ord generalizing l with
+  | nil =>
+    cases l with
+    | nil => simp [compatible]
+    | cons a l => simp [compatible]
+  | cons b ord ih =>
+    cases l with
+    | nil => simp [compatible]
+    | cons a l =>
+      simp only [compatible]
+      by_cases hab : a = b
+      · subst hab
+        simp only [if_true, ih l]
+        constructor
+        · intro h; exact h.cons_cons a
+        · intro h
+          cases h with
+          | cons _ h' => exact (List.sublist_cons_self a l).trans h'
+          | cons_cons _ h' => exact h'
+      · simp only [hab, if_false, ih (a :: l)]
+        constructor
+        · intro h; exact h.cons b
+        · intro h
+          cases h with
+          | cons _ h' => exact h'
+          | cons_cons _ h' => exact absurd rfl hab
+
+/-- **C12.sync_chunking_independent** — two chunkings of the same entries (any cut positions, empty chunks anywhere)
+give the same groups, hence every consumer's result is the same. -/
+theorem sync_chunking_independent (c₁ c₂ : List (List (Name × Nat))) (h : c₁.flatten = c₂.flatten) :
+    groupsOfChunks c₁ = groupsOfChunks c₂ := by
+  rw [groups_chunking, groups_chunking, h]
+
+example : ([[(1, 0)], [], [(1, 1), (2, 2)]] : List (List (Name × Nat))).flatten = [[(1, 0), (1, 1)], [(2, 2)]].flatten := by decide
+
 /-! ### the pull-step machine of `iter_chromosomes` under a pull-all consumer is a walk over the order -/
 
 /-- big-step form of the generator, from the top of the `for name in real_order` loop -/
@@ -159,7 +206,7 @@ def walk (O I : List Name) : List Name → List Name → Option Group → List G
         match nextIncluded O I src with
         | none => none
         | some (nx', src') =>
-          if (match nx' with | some g' => seen.contains g'.name | none => false) then none
+          if (match nx' with | some g' => seen.contains g'.name || g'.name == name | none => false) then none
           else (walk O I rest (seen ++ [name]) nx' src').map (g.items :: ·)
       else (walk O I rest (seen ++ [name]) nx src).map ([] :: ·)
     | none => (walk O I rest (seen ++ [name]) none src).map ([] :: ·)
@@ -215,9 +262,9 @@ theorem serve_eq_walk (ord : List Name) : ∀ (s : IterSt) (fuel : Nat), s.order
             simp only [] at this
             rw [this]
           | some g' =>
-            by_cases hs : g'.name ∈ s.seen
+            by_cases hs : g'.name ∈ s.seen ∨ g'.name = name
             · simp [hs, cont]
-            · simp only [List.contains_eq_mem, decide_eq_true_eq, hs, if_false]
+            · simp only [List.contains_eq_mem, Bool.or_eq_true, decide_eq_true_eq, beq_iff_eq, hs, if_false]
               have := ih { s with order := rest, phase := .afterGroup name, next := some g', src := src', seen := s.seen ++ [name] } f rfl hf'
               simp only [] at this
               rw [this]
@@ -367,12 +414,11 @@ theorem spec'_cons_ne (l : List Group) (name : Name) (rest : List Name) (hn : na
 
 theorem walk_spec (O I : List Name) (ord : List Name) : ∀ (seen : List Name) (nx : Option Group) (src : List Group),
     ord.Nodup → (∀ n ∈ ord, n ∈ O) → (∀ n ∈ seen, n ∉ ord) → (∀ n ∈ O, n ∈ seen ∨ n ∈ ord) →
-    ((nx.toList ++ kept I src).map (·.name)).Nodup →
     (∀ g, nx = some g → g.name ∈ ord) → (nx = none → kept I src = []) →
     walk O I ord seen nx src = spec' ord (nx.toList ++ kept I src) := by
   induction ord with
   | nil =>
-    intro seen nx src _ _ _ _ _ hnx hnone
+    intro seen nx src _ _ _ _ hnx hnone
     cases nx with
     | some g => have := hnx g rfl; simp at this
     | none =>
@@ -380,7 +426,7 @@ theorem walk_spec (O I : List Name) (ord : List Name) : ∀ (seen : List Name) (
       obtain ⟨r, hr⟩ := nextIncluded_of_kept_nil O I src hk
       simp [walk, hr, hk, spec', compatible]
   | cons name rest ih =>
-    intro seen nx src hnd hsub hdis hcov hnames hnx hnone
+    intro seen nx src hnd hsub hdis hcov hnx hnone
     have hname : name ∉ rest := (List.nodup_cons.mp hnd).1
     have hrest : rest.Nodup := (List.nodup_cons.mp hnd).2
     have hsub' : ∀ n ∈ rest, n ∈ O := fun n h => hsub n (List.mem_cons_of_mem _ h)
@@ -401,12 +447,12 @@ theorem walk_spec (O I : List Name) (ord : List Name) : ∀ (seen : List Name) (
     | none =>
       have hk := hnone rfl
       simp only [walk, Option.toList, List.nil_append, hk]
-      rw [ih (seen ++ [name]) none src hrest hsub' hdis' hcov' (by simp [hk]) (by simp) (fun _ => hk)]
+      rw [ih (seen ++ [name]) none src hrest hsub' hdis' hcov' (by simp) (fun _ => hk)]
       simp only [Option.toList, List.nil_append, hk]
       rw [spec'_cons_ne [] name rest hname (by simp)]
     | some g =>
       have hgo := hnx g rfl
-      simp only [Option.toList, List.singleton_append] at hnames ⊢
+      simp only [Option.toList, List.singleton_append]
       by_cases hg : g.name = name
       · simp only [walk, hg, if_true]
         have hspec := nextIncluded_spec O I src
@@ -433,38 +479,38 @@ theorem walk_spec (O I : List Name) (ord : List Name) : ∀ (seen : List Name) (
             obtain ⟨hk, hr⟩ := hspec
             simp only [Bool.false_eq_true, if_false]
             subst hr
-            rw [ih (seen ++ [name]) none [] hrest hsub' hdis' hcov' (by simp [kept]) (by simp) (fun _ => by simp [kept])]
+            rw [ih (seen ++ [name]) none [] hrest hsub' hdis' hcov' (by simp) (fun _ => by simp [kept])]
             rw [spec'_cons_eq g _ name rest hg hname, hk]
             simp [kept]
           | some g' =>
             obtain ⟨hk, hgo'⟩ := hspec
-            have hg'ne : g'.name ≠ name := by
-              rw [hk] at hnames
-              simp only [List.map_cons, List.nodup_cons, List.mem_cons, not_or] at hnames
-              intro h; exact hnames.1.1 (by rw [hg, h])
-            by_cases hs : g'.name ∈ seen
-            · simp only [List.contains_eq_mem, decide_eq_true_eq, hs, if_true]
+            by_cases hs : g'.name ∈ seen ∨ g'.name = name
+            · have hb : (seen.contains g'.name || g'.name == name) = true := by
+                simpa using hs
+              simp only [hb, if_true]
               rw [spec'_cons_eq g _ name rest hg hname, hk]
               have : compatible ((g' :: kept I src').map (·.name)) rest = false := by
                 cases hc : compatible ((g' :: kept I src').map (·.name)) rest with
                 | false => rfl
                 | true =>
-                  have := compatible_mem _ _ hc g'.name (by simp)
-                  exact absurd (List.mem_cons_of_mem _ this) (hdis _ hs)
+                  have hm := compatible_mem _ _ hc g'.name (by simp)
+                  rcases hs with h | h
+                  · exact absurd (List.mem_cons_of_mem _ hm) (hdis _ h)
+                  · rw [h] at hm; exact absurd hm hname
               simp only [List.map_cons] at this
               simp [spec', this]
-            · simp only [List.contains_eq_mem, decide_eq_true_eq, hs, if_false]
+            · have hb : (seen.contains g'.name || g'.name == name) = false := by
+                cases h : (seen.contains g'.name || g'.name == name) with
+                | false => rfl
+                | true => exact absurd (by simpa using h) hs
+              simp only [hb, Bool.false_eq_true, if_false]
               have hg'rest : g'.name ∈ rest := by
                 rcases hcov _ hgo' with h | h
-                · exact absurd h hs
+                · exact absurd (Or.inl h) hs
                 · rcases List.mem_cons.mp h with h | h
-                  · exact absurd h hg'ne
+                  · exact absurd (Or.inr h) hs
                   · exact h
               rw [ih (seen ++ [name]) (some g') src' hrest hsub' hdis' hcov'
-                (by
-                  rw [hk] at hnames
-                  simp only [Option.toList, List.singleton_append]
-                  exact (List.nodup_cons.mp (by simpa using hnames)).2)
                 (by intro x hx; cases hx; exact hg'rest) (by simp)]
               rw [spec'_cons_eq g _ name rest hg hname, hk]
               simp [Option.toList]
@@ -473,20 +519,21 @@ theorem walk_spec (O I : List Name) (ord : List Name) : ∀ (seen : List Name) (
           rcases List.mem_cons.mp hgo with h | h
           · exact absurd h hg
           · exact h
-        rw [ih (seen ++ [name]) (some g) src hrest hsub' hdis' hcov' (by simpa [Option.toList] using hnames)
+        rw [ih (seen ++ [name]) (some g) src hrest hsub' hdis' hcov'
           (by intro x hx; cases hx; exact hgrest) (by simp)]
         simp only [Option.toList, List.singleton_append]
         rw [spec'_cons_ne (g :: kept I src) name rest hname (by intro x hx; simp at hx; rw [← hx]; exact hg)]
 
-/-- **C12.sync_complete** — for every genome order (distinct names), ignored set and sequence of groups
-whose non-ignored names are distinct (the contiguity precondition), pull-all evaluation of
+/-- **C12.sync_complete** — for every genome order (distinct names), ignored set and sequence of groups —
+NO assumption on the group names any more: a name may even repeat (entries of a contig not contiguous);
+after the repair that is an error like any other incompatible order — pull-all evaluation of
 `iter_chromosomes` (a `for` loop, `list(...)`, `compute` of one stream) is *exactly* the
 specification: it completes iff every non-ignored group name is in the order and the names occur in
 an order compatible with it, and then output `i` is the group named `order[i]` or the empty table;
 otherwise an error is raised. In particular it never completes with entries left out or assigned to
 another contig. -/
 theorem sync_complete (order ignored : List Name) (gs : List Group) (fuel : Nat)
-    (hord : order.Nodup) (hnames : ((kept ignored gs).map (·.name)).Nodup) (hf : order.length + 2 ≤ fuel) :
+    (hord : order.Nodup) (hf : order.length + 2 ≤ fuel) :
     pullAll IterSt.pull fuel (IterSt.init order order ignored gs) = specSync order ignored gs ∧
     (∀ out, specSync order ignored gs = some out →
       out = order.map (itemsOf (kept ignored gs)) ∧
@@ -515,12 +562,11 @@ theorem sync_complete (order ignored : List Name) (gs : List Group) (fuel : Nat)
         obtain ⟨hk, hr⟩ := hspec
         subst hr
         rw [walk_spec order ignored order [] none [] hord (fun _ h => h) (by simp) (fun n h => Or.inr h)
-          (by simp [kept]) (by simp) (fun _ => by simp [kept])]
+          (by simp) (fun _ => by simp [kept])]
         rw [hk]; simp [kept]
       | some g =>
         obtain ⟨hk, hgo⟩ := hspec
         rw [walk_spec order ignored order [] (some g) src hord (fun _ h => h) (by simp) (fun n h => Or.inr h)
-          (by rw [hk] at hnames; simpa [Option.toList] using hnames)
           (by intro x hx; cases hx; exact hgo) (by simp)]
         rw [hk]; simp [Option.toList]
   · intro out hout
@@ -537,7 +583,7 @@ theorem sync_complete (order ignored : List Name) (gs : List Group) (fuel : Nat)
         exact Or.inl (compatible_mem _ _ hc g.name (List.mem_map_of_mem this))
     · simp [hc] at hout
 
-example : [0, 1, 2].Nodup ∧ ((kept [7] [⟨1, [3]⟩, ⟨7, [9]⟩, ⟨2, [4]⟩]).map (·.name)).Nodup := by decide
+example : [0, 1, 2].Nodup := by decide
 
 /-! ### the one-item look-ahead: every item handed out is backed by one more successful pull -/
 
@@ -721,7 +767,7 @@ specification's per-contig tables, and the data was compatible with the genome o
 incompatible data, or data naming an unknown contig, an exception is raised no later than at the
 last item. Nothing can be dropped or re-assigned silently by cutting the evaluation short. -/
 theorem sync_complete_any_consumer (order ignored : List Name) (gs : List Group)
-    (hord : order.Nodup) (hnames : ((kept ignored gs).map (·.name)).Nodup) (hpos : 0 < order.length)
+    (hord : order.Nodup) (hpos : 0 < order.length)
     (xs : List Item) (st : IterSt × Hold)
     (h : takeN (lookPull IterSt.pull) order.length (IterSt.init order order ignored gs, .fresh) = some (xs, st)) :
     specSync order ignored gs = some xs := by
@@ -739,7 +785,7 @@ theorem sync_complete_any_consumer (order ignored : List Name) (gs : List Group)
     | done => rfl
     | yield x s' => exact absurd hp (pull_not_yield_of_order_nil s₁ ho x s')
   have := pullAll_of_takeN IterSt.pull (n + 1) _ s₁ xs (order.length + 2) ht hd (by omega)
-  rw [(sync_complete order ignored gs (order.length + 2) hord hnames (by omega)).1] at this
+  rw [(sync_complete order ignored gs (order.length + 2) hord (by omega)).1] at this
   exact this
 
 example : (takeN (lookPull IterSt.pull) 2 (IterSt.init [0, 1] [0, 1] [] [⟨1, [2]⟩], .fresh)).map (·.1) = some [[], [2]] := by
@@ -1184,7 +1230,7 @@ left-over group in any operand therefore makes the evaluation raise; it cannot c
 theorem zip_columns_complete (order : List Name) (hord : order.Nodup) (hpos : 0 < order.length)
     (f : Nat) (ms : List M) (rows : List (List Item)) (hz : zipAll f ms = some rows)
     (hrows : rows.length = order.length) (i : Nat) (hi : i < ms.length) :
-    (∀ ignored gs, ((kept ignored gs).map (·.name)).Nodup →
+    (∀ ignored gs,
       ms[i] = .lookIter (IterSt.init order order ignored gs) .fresh →
       specSync order ignored gs = some (rows.map (fun r => r.getD i []))) ∧
     (∀ gs, ms[i] = .lookSync (SyncSt.init order gs) .fresh →
@@ -1192,10 +1238,10 @@ theorem zip_columns_complete (order : List Name) (hord : order.Nodup) (hpos : 0 
   obtain ⟨m', hm'⟩ := zipAll_column f ms rows hz i hi
   rw [hrows] at hm'
   constructor
-  · intro ignored gs hnames hmi
+  · intro ignored gs hmi
     rw [hmi] at hm'
     obtain ⟨st, hst⟩ := takeN_lookIter _ _ _ _ _ hm'
-    exact sync_complete_any_consumer order ignored gs hord hnames hpos _ st hst
+    exact sync_complete_any_consumer order ignored gs hord hpos _ st hst
   · intro gs hmi
     rw [hmi] at hm'
     obtain ⟨st, hst⟩ := takeN_lookSync _ _ _ _ _ hm'
